@@ -31,6 +31,13 @@ def uninstall_model(saved):
     A.pd, C.pd = saved
 
 
+def _nan(vals):
+    vals = list(vals)
+    if any(v is None for v in vals):
+        return [float("nan") if v is None else float(v) for v in vals]
+    return vals
+
+
 class Backend:
     def __init__(self, kind):
         self.kind = kind
@@ -44,13 +51,13 @@ class Backend:
     def series(self, vals, idx, name="x"):
         if self.kind == "pandas":
             ix = self.pd.to_datetime(list(idx), unit="ns") if self.time else list(idx)
-            return self.pd.Series(list(vals), index=ix, name=name, dtype="float64" if False else None)
+            return self.pd.Series(_nan(vals), index=ix, name=name)
         return self.pd.MSeries(self.pd.wrap(vals) if name == "x" else list(vals), list(idx), name)
 
     def frame(self, cols, idx):
         if self.kind == "pandas":
             ix = self.pd.to_datetime(list(idx), unit="ns") if self.time else list(idx)
-            return self.pd.DataFrame({k: list(v) for k, v in cols.items()}, index=ix)
+            return self.pd.DataFrame({k: _nan(v) for k, v in cols.items()}, index=ix)
         return self.pd.MFrame({k: (self.pd.wrap(v) if k != "k" else list(v)) for k, v in cols.items()}, list(idx))
 
     time = False
